@@ -3,6 +3,7 @@ package norm
 import (
 	"fmt"
 	"go/ast"
+	"go/constant"
 	"go/token"
 	"go/types"
 	"sort"
@@ -193,7 +194,9 @@ func wrapMethodValue(pkg *packages.Package, isHelper func(*types.Func) bool, con
 			_, ptrVar := v.Type().Underlying().(*types.Pointer)
 			// a pointer receiver on a pointer variable binds the pointer: only the variable must be stable; every other
 			// combination binds (a copy of, or the address of) the struct: its fields must not change either
-			if !stableVar(pkg.TypesInfo, fd, v, !(ptrRecv && ptrVar)) {
+			// ... except a pointer receiver on a struct variable: that binds the address of the variable, which is what a
+			// later x.m() uses too, whatever happens to the variable's contents in between
+			if !(ptrRecv && !ptrVar) && !stableVar(pkg.TypesInfo, fd, v, !(ptrRecv && ptrVar)) {
 				return true
 			}
 			hit = se
@@ -235,6 +238,68 @@ func wrapMethodValue(pkg *packages.Package, isHelper func(*types.Func) bool, con
 			text += " (" + strings.Join(rs, ", ") + ") { return " + call + " }"
 		} else {
 			text += " { " + call + " }"
+		}
+		// the same method called on the same receiver elsewhere in the function: one closure variable, declared right
+		// after the receiver, serves the method value and those calls (the refactoring that is being undone turned one
+		// closure into a method; inlining every use separately would duplicate its body)
+		{
+			recvID := hit.X.(*ast.Ident)
+			recvObj := pkg.TypesInfo.Uses[recvID]
+			fd := enclosingFuncDecl(par, hit)
+			var others []*ast.SelectorExpr
+			ast.Inspect(fd, func(n ast.Node) bool {
+				se, ok := n.(*ast.SelectorExpr)
+				if !ok || se == hit || se.Sel.Name != hit.Sel.Name {
+					return true
+				}
+				if id, ok := se.X.(*ast.Ident); ok && pkg.TypesInfo.Uses[id] == recvObj {
+					others = append(others, se)
+				}
+				return true
+			})
+			// where the receiver is declared: a statement of a statement list
+			var declStmt ast.Stmt
+			if len(others) > 0 {
+				ast.Inspect(fd, func(n ast.Node) bool {
+					switch x := n.(type) {
+					case *ast.AssignStmt:
+						if x.Tok == token.DEFINE {
+							for _, l := range x.Lhs {
+								if id, ok := l.(*ast.Ident); ok && pkg.TypesInfo.Defs[id] == recvObj {
+									declStmt = x
+								}
+							}
+						}
+					case *ast.DeclStmt:
+						if gd, ok := x.Decl.(*ast.GenDecl); ok {
+							for _, sp := range gd.Specs {
+								if vs, ok := sp.(*ast.ValueSpec); ok {
+									for _, id := range vs.Names {
+										if pkg.TypesInfo.Defs[id] == recvObj {
+											declStmt = x
+										}
+									}
+								}
+							}
+						}
+					}
+					return declStmt == nil
+				})
+			}
+			if declStmt != nil {
+				switch par[declStmt].(type) {
+				case *ast.BlockStmt, *ast.CaseClause, *ast.CommClause:
+					name := fmt.Sprintf("_mv%df", *counter)
+					eds := []srcEdit{{from, to, name}}
+					for _, o := range others {
+						eds = append(eds, srcEdit{pkg.Fset.Position(o.Pos()).Offset, pkg.Fset.Position(o.End()).Offset, name})
+					}
+					end := pkg.Fset.Position(declStmt.End()).Offset
+					eds = append(eds, srcEdit{end, end, "\n" + name + " := " + text + "\n_ = " + name + "\n"})
+					out := applyEdits(append([]byte{}, src...), eds)
+					return fname, out, fmt.Sprintf("bound the method value %s (%s:%d) and %d other use(s) of that method to one function literal", string(src[from:to]), shortName(fname), pkg.Fset.Position(hit.Pos()).Line, len(others))
+				}
+			}
 		}
 		out := applyEdits(append([]byte{}, src...), []srcEdit{{from, to, text}})
 		return fname, out, fmt.Sprintf("wrapped the method value %s (%s:%d) in a function literal", string(src[from:to]), shortName(fname), pkg.Fset.Position(hit.Pos()).Line)
@@ -637,6 +702,245 @@ func wrapFuncValue(pkg *packages.Package, isHelper func(*types.Func) bool, conte
 		}
 		out := applyEdits(append([]byte{}, src...), []srcEdit{{from, to, text}})
 		return fname, out, fmt.Sprintf("wrapped the function value %s (%s:%d) in a function literal", hit.Name, shortName(fname), pkg.Fset.Position(hit.Pos()).Line)
+	}
+	return "", nil, ""
+}
+
+// foldConstIf replaces one `if <constant> {A} else {B}` (no init statement) by the branch that runs; inlining a
+// helper that was called with a literal flag leaves such statements behind.
+func foldConstIf(pkg *packages.Package, content func(string) []byte) (string, []byte, string) {
+	for _, f := range pkg.Syntax {
+		fname := pkg.Fset.File(f.Pos()).Name()
+		if strings.HasSuffix(fname, "_test.go") {
+			continue
+		}
+		off := func(p token.Pos) int { return pkg.Fset.Position(p).Offset }
+		var hit *ast.IfStmt
+		val := false
+		ast.Inspect(f, func(n ast.Node) bool {
+			if hit != nil {
+				return false
+			}
+			is, ok := n.(*ast.IfStmt)
+			if !ok || is.Init != nil {
+				return true
+			}
+			tv, ok := pkg.TypesInfo.Types[is.Cond]
+			if !ok || tv.Value == nil || tv.Value.Kind() != constant.Bool {
+				return true
+			}
+			hit, val = is, constant.BoolVal(tv.Value)
+			return false
+		})
+		if hit == nil {
+			continue
+		}
+		src := content(fname)
+		repl := "{}"
+		if val {
+			repl = string(src[off(hit.Body.Pos()):off(hit.Body.End())])
+		} else if hit.Else != nil {
+			repl = string(src[off(hit.Else.Pos()):off(hit.Else.End())])
+		}
+		out := applyEdits(append([]byte{}, src...), []srcEdit{{off(hit.Pos()), off(hit.End()), repl}})
+		return fname, out, fmt.Sprintf("folded the constant condition at %s:%d", shortName(fname), pkg.Fset.Position(hit.Pos()).Line)
+	}
+	return "", nil, ""
+}
+
+// unNewtype: an unknown defined type with no methods (left) whose underlying type is not a struct or interface is
+// replaced by that underlying type wherever it is named (`type state uint64` introduced to hang accessors on, which
+// have been inlined by now). Values of such a type behave like values of the underlying type except for their
+// dynamic type inside an interface; it is therefore refused when a value of the type is passed, assigned or returned
+// as an interface, or the type is named in a type assertion or type switch.
+func unNewtype(pkg *packages.Package, knownTypes map[string]bool, content func(string) []byte, tried map[string]bool) (string, map[string][]byte, string) {
+	info := pkg.TypesInfo
+	scope := pkg.Types.Scope()
+	for _, n := range scope.Names() {
+		tn, ok := scope.Lookup(n).(*types.TypeName)
+		if !ok || tn.IsAlias() || knownTypes[n] || tried["nt:"+n] {
+			continue
+		}
+		tried["nt:"+n] = true
+		named, ok := tn.Type().(*types.Named)
+		if !ok || named.NumMethods() != 0 || named.TypeParams().Len() != 0 {
+			continue
+		}
+		switch named.Underlying().(type) {
+		case *types.Struct, *types.Interface:
+			continue
+		}
+		// the declaration (for the text of the underlying type)
+		var spec *ast.TypeSpec
+		var specFile *ast.File
+		for _, f := range pkg.Syntax {
+			ast.Inspect(f, func(nd ast.Node) bool {
+				if ts, ok := nd.(*ast.TypeSpec); ok && info.Defs[ts.Name] == types.Object(tn) {
+					spec, specFile = ts, f
+				}
+				return spec == nil
+			})
+		}
+		if spec == nil || spec.TypeParams != nil {
+			continue
+		}
+		sf := pkg.Fset.File(specFile.Pos()).Name()
+		ssrc := content(sf)
+		under := "(" + string(ssrc[pkg.Fset.Position(spec.Type.Pos()).Offset:pkg.Fset.Position(spec.Type.End()).Offset]) + ")"
+		isT := func(t types.Type) bool { return t != nil && types.Identical(t, named) }
+		isIface := func(t types.Type) bool {
+			if t == nil {
+				return false
+			}
+			_, ok := t.Underlying().(*types.Interface)
+			return ok
+		}
+		refuse := false
+		edits := map[string][]srcEdit{}
+		for _, f := range pkg.Syntax {
+			fname := pkg.Fset.File(f.Pos()).Name()
+			if strings.HasSuffix(fname, "_test.go") {
+				// a test that names the type keeps it alive
+				ast.Inspect(f, func(nd ast.Node) bool {
+					if id, ok := nd.(*ast.Ident); ok && info.Uses[id] == types.Object(tn) {
+						refuse = true
+					}
+					return !refuse
+				})
+				continue
+			}
+			ast.Inspect(f, func(nd ast.Node) bool {
+				switch x := nd.(type) {
+				case *ast.TypeAssertExpr:
+					if x.Type == nil || isT(info.TypeOf(x.Type)) {
+						// a type switch guard, or an assertion to the type
+						if x.Type != nil {
+							refuse = true
+						}
+					}
+				case *ast.CaseClause:
+					for _, e := range x.List {
+						if tv, ok := info.Types[e]; ok && tv.IsType() && isT(tv.Type) {
+							refuse = true
+						}
+					}
+				case *ast.CallExpr:
+					if tv, ok := info.Types[x.Fun]; ok && tv.IsType() {
+						if isIface(tv.Type) && len(x.Args) == 1 && isT(info.TypeOf(x.Args[0])) {
+							refuse = true
+						}
+						break
+					}
+					if sig, ok := info.TypeOf(x.Fun).(*types.Signature); ok {
+						for i, a := range x.Args {
+							if !isT(info.TypeOf(a)) {
+								continue
+							}
+							var pt types.Type
+							if sig.Variadic() && i >= sig.Params().Len()-1 {
+								pt = sig.Params().At(sig.Params().Len() - 1).Type().(*types.Slice).Elem()
+							} else if i < sig.Params().Len() {
+								pt = sig.Params().At(i).Type()
+							}
+							if isIface(pt) {
+								refuse = true
+							}
+						}
+					} else {
+						// builtin (append, panic, print...): refuse if a value of the type is an operand
+						for _, a := range x.Args {
+							if isT(info.TypeOf(a)) {
+								if id, ok := x.Fun.(*ast.Ident); ok && (id.Name == "panic" || id.Name == "print" || id.Name == "println" || id.Name == "append") {
+									refuse = true
+								}
+							}
+						}
+					}
+				case *ast.AssignStmt:
+					for i, r := range x.Rhs {
+						if i < len(x.Lhs) && isT(info.TypeOf(r)) && isIface(info.TypeOf(x.Lhs[i])) {
+							refuse = true
+						}
+					}
+				case *ast.ValueSpec:
+					if x.Type != nil && isIface(info.TypeOf(x.Type)) {
+						for _, v := range x.Values {
+							if isT(info.TypeOf(v)) {
+								refuse = true
+							}
+						}
+					}
+				case *ast.ReturnStmt:
+					for _, r := range x.Results {
+						if isT(info.TypeOf(r)) {
+							// the enclosing function's result type is not at hand here: refuse only for interface-returning
+							// functions, found through the parent chain below
+							_ = r
+						}
+					}
+				case *ast.SendStmt:
+					if isT(info.TypeOf(x.Value)) {
+						if ch, ok := info.TypeOf(x.Chan).Underlying().(*types.Chan); ok && isIface(ch.Elem()) {
+							refuse = true
+						}
+					}
+				case *ast.CompositeLit:
+					for _, el := range x.Elts {
+						v := el
+						if kv, ok := el.(*ast.KeyValueExpr); ok {
+							v = kv.Value
+						}
+						if isT(info.TypeOf(v)) {
+							refuse = true // may be an interface-typed element or field: not worth telling apart
+						}
+					}
+				case *ast.Ident:
+					if info.Uses[x] == types.Object(tn) {
+						edits[fname] = append(edits[fname], srcEdit{pkg.Fset.Position(x.Pos()).Offset, pkg.Fset.Position(x.End()).Offset, under})
+					}
+				}
+				return !refuse
+			})
+		}
+		// returns of interface-typed results
+		for _, f := range pkg.Syntax {
+			for _, d := range f.Decls {
+				fd, ok := d.(*ast.FuncDecl)
+				if !ok || fd.Body == nil {
+					continue
+				}
+				var walk func(n ast.Node, sig *types.Signature)
+				walk = func(n ast.Node, sig *types.Signature) {
+					ast.Inspect(n, func(nd ast.Node) bool {
+						switch x := nd.(type) {
+						case *ast.FuncLit:
+							if s2, ok := info.TypeOf(x).(*types.Signature); ok {
+								walk(x.Body, s2)
+							}
+							return false
+						case *ast.ReturnStmt:
+							for i, r := range x.Results {
+								if isT(info.TypeOf(r)) && sig != nil && i < sig.Results().Len() && isIface(sig.Results().At(i).Type()) {
+									refuse = true
+								}
+							}
+						}
+						return true
+					})
+				}
+				if obj, ok := info.Defs[fd.Name].(*types.Func); ok {
+					walk(fd.Body, obj.Type().(*types.Signature))
+				}
+			}
+		}
+		if refuse || len(edits) == 0 {
+			continue
+		}
+		out := map[string][]byte{}
+		for fname, eds := range edits {
+			out[fname] = applyEdits(append([]byte{}, content(fname)...), eds)
+		}
+		return n, out, fmt.Sprintf("replaced the unknown method-less type %s by its underlying type %s", n, under)
 	}
 	return "", nil, ""
 }
